@@ -22,7 +22,7 @@ from vlib import gen, oracle, runner, storetrace
 
 PROPERTY = "C10"
 LEVEL = "exploration"
-TIMEOUT = {"quick": 900, "thorough": 5400}
+TIMEOUT = {"quick": 1500, "thorough": 7200}
 RULE = (
     "histories of 5-12 (quick) / up to 30 (thorough) steps drawn from {derive, compute subset, store/to_zarr (eager|lazy, "
     "path|existing array) of any pool member, re-compute, change default executor}; pool built by vlib.gen.Gen; half of "
